@@ -2480,9 +2480,13 @@ class VM:
             # Use synchronous execution (like _call_callback)
             return self._call_callback(getter, [], this_val)
         elif isinstance(getter, JSBoundMethod):
-            return getter(this_val)  # a this-using built-in: the receiver is its this
+            # a this-using built-in: the receiver is its this
+            result = getter(this_val)
+            return result if result is not None else UNDEFINED
         elif callable(getter):
-            return getter()
+            # a host function returning nothing gives undefined, as when it is called
+            result = getter()
+            return result if result is not None else UNDEFINED
         return UNDEFINED
 
     def _invoke_setter(self, setter: Any, this_val: JSValue, value: JSValue) -> None:
